@@ -209,6 +209,31 @@ theorem untouched_elements_paired_with_themselves (old new : List AD.AV) (kept :
     exact htwins i k old[i] new[k] (by simp [hi]) (by simp [hk'']) hik
   · exact hrun
 
+/-- **The same when the list changes its length** (import declarations added, merged or removed in front of the others):
+`σ` pairs the elements that stayed as they were with their partners in the new list, strictly increasing; if these are the
+only identical pairs (no twins) and no more than 63 new elements stand between the partners of two consecutive ones,
+`alignSlices` gives each of them the fate "identical to its partner". -/
+theorem untouched_elements_paired_with_partners (old new : List AD.AV) (σ : Nat → Option Nat)
+    (hin : ∀ i k, i < old.length → σ i = some k → k < new.length)
+    (hsame : ∀ (i k : Nat) (f t : AD.AV), old[i]? = some f → new[k]? = some t → σ i = some k → AD.Same f t)
+    (htwins : ∀ (i k : Nat) (f t : AD.AV), old[i]? = some f → new[k]? = some t → σ i ≠ some k → (AD.cmp f t).equal = false)
+    (hmono : ∀ i i' k k', i < i' → i' < old.length → σ i = some k → σ i' = some k' → k < k')
+    (hrun : ∀ i k b, i < old.length → σ i = some k → b ≤ k → (∀ i' k', i' < i → σ i' = some k' → k' < b) → k - b < 64) :
+    ∀ i k, i < old.length → σ i = some k →
+      (AD.fates (AD.alignSlices (AD.cmpRows old new) old.length new.length).1 0)[i]? = some (.same k) := by
+  apply AD.alignSlices_anchors (AD.cmpRows old new) old.length new.length σ
+  · intro i k hi hs
+    have hk := hin i k hi hs
+    refine ⟨hk, ?_⟩
+    rw [AD.lookup_cmpRows old new i k old[i] new[k] (by simp [hi]) (by simp [hk])]
+    have := AD.cmp_same _ _ (hsame i k old[i] new[k] (by simp [hi]) (by simp [hk]) hs)
+    simp [AD.Res.equal, this]
+  · intro i k hi hk hs
+    rw [AD.lookup_cmpRows old new i k old[i] new[k] (by simp [hi]) (by simp [hk])]
+    exact htwins i k old[i] new[k] (by simp [hi]) (by simp [hk]) hs
+  · exact hmono
+  · exact hrun
+
 /-- a region that keeps clear of a stretch in this sense is `strongClear` of it: the hypothesis of `changelog_keeps_clear` -/
 theorem clear_region_strong (lo hi : Nat) (r : AD.Rg) (h : r.stop ≤ lo ∨ hi ≤ r.pos) :
     strongClear ⟨r.pos, r.stop⟩ ⟨lo, hi⟩ = true := by
